@@ -117,6 +117,37 @@ def gen_case(rng, s):
     return {"query": q, "variables": dict(variables), "group": group, "field": fn}
 
 
+BAD_VALUES = {"Int": 3, "Float": 2.5, "String": "three", "Boolean": True, "ID": "id9"}
+ILL_SHAPES = ["direct", "fragment", "nested_fragment", "shared_good_first", "shared_bad_first", "shared_nested"]
+
+
+def gen_illtyped(rng, s):
+    """A document using a variable DIRECTLY as an argument value at a position whose named type differs from the
+    variable's (rule 5.8.5 forbids it whatever the runtime value): nothing may be delivered to the resolver."""
+    f = rng.choice(s["types"]["Query"]["fields"])
+    t = f["args"][0]["type"]
+    bad = rng.choice([b for b in BAD_VALUES if b != gen.named_of(t)])
+    badt = bad + ("!" if rng.random() < 0.5 else "")
+    shape = rng.choice(ILL_SHAPES)
+    use = "probe: %s(x: $v)" % f["name"]
+    good = "query Good($v: %s) { ...F }" % gen.type_sdl(t)
+    badop = "query Bad($v: %s) { ...F }" % badt
+    if shape == "direct":
+        q = "query Bad($v: %s) { %s }" % (badt, use)
+    elif shape == "fragment":
+        q = "%s fragment F on Query { %s }" % (badop, use)
+    elif shape == "nested_fragment":
+        q = "%s fragment F on Query { ...G } fragment G on Query { %s }" % (badop, use)
+    elif shape == "shared_good_first":
+        q = "%s %s fragment F on Query { %s }" % (good, badop, use)
+    elif shape == "shared_bad_first":
+        q = "%s %s fragment F on Query { %s }" % (badop, good, use)
+    else:
+        q = "%s %s fragment F on Query { ...G } fragment G on Query { %s }" % (good, badop, use)
+    return {"query": q, "variables": {"v": BAD_VALUES[bad]}, "op": "Bad", "group": [], "field": f["name"],
+            "illtyped": shape, "declared": gen.type_sdl(t), "variable_type": badt}
+
+
 async def run_schema(s, cases, schema_name):
     from tartiflette import create_engine, Resolver
     record = {}
@@ -135,7 +166,7 @@ async def run_schema(s, cases, schema_name):
     for c in cases:
         record.clear()
         try:
-            resp = await engine.execute(c["query"], variables=c["variables"])
+            resp = await engine.execute(c["query"], variables=c["variables"], operation_name=c.get("op"))
         except Exception as e:  # pylint: disable=broad-except
             resp = {"raised": repr(e)}
         out.append({"response": resp, "args": dict(record)})
@@ -235,9 +266,19 @@ def main(tier_, replay=None):
     total = spell_pairs = 0
     disagreements = []
     refused_requests = 0
+    ill_total, ill_shapes = 0, {}
     for si in range(n_schemas):
         s = gen.gen_input_schema(rng)
         cases = [gen_case(rng, s) for _ in range(n_cases)]
+        ill = [gen_illtyped(rng, s) for _ in range(max(12, n_cases // 5))]
+        ill_runs = asyncio.run(run_schema(s, ill, fresh_schema_name("c05ill")))
+        for c, r in zip(ill, ill_runs):
+            ill_total += 1
+            ill_shapes[c["illtyped"]] = ill_shapes.get(c["illtyped"], 0) + 1
+            if r["args"] or r["response"].get("data") is not None or not r["response"].get("errors"):
+                disagreements.append((s, c, r, "a %s variable used directly at a position of type %s (%s): the document "
+                                      "must be refused, nothing may reach the resolver" % (
+                                          c["variable_type"], c["declared"], c["illtyped"])))
         asts = [gen.parse_query(c["query"]) for c in cases]
         runs = asyncio.run(run_schema(s, cases, fresh_schema_name("c05")))
         # spellings of the same value must agree
@@ -304,9 +345,12 @@ def main(tier_, replay=None):
         "theorems": [n for n in names if n.startswith("C05_")],
         "evaluations": total, "distinct_nontrivial": spell_pairs,
         "rule": "one value per request spelled as literal / variable / nested variable / variable default / "
-                "schema default / null / omitted; non-trivial = pairs of spellings compared",
+                "schema default / null / omitted; non-trivial = pairs of spellings compared; plus documents using a "
+                "variable of another named type directly at the argument (in the operation, through fragments, "
+                "through a fragment shared with a well-typed operation): must be refused, resolver never called",
         "traces_validated_against_impl": total - refused_requests,
         "impl_model_mismatches": len(impl_mm), "spelling_disagreements": len(disagreements),
+        "illtyped_variable_documents": ill_total, "illtyped_shapes": ill_shapes,
         "samples": [{"query": c["query"], "variables": c["variables"]} for c in meta[0][1][:4]] if meta else [],
     }, rep.wall(), violations=len(rep.violations),
         assumptions_=["directive-argument positions share coerce_arguments with field positions (same code path)"])
